@@ -417,6 +417,17 @@ class Verifier(Stmts):
                         vals[a_.arg] = V(o.val(val.t), pty)
                     else:
                         raise Outside("possibly-None argument %s passed to %s" % (a_.arg, qn))
+        # intermediate assertions the caller's contract places at this call site
+        ccon = self.contracts.get(caller)
+        if ccon is not None and not st.spec and ccon.before_call_.get(qn.split('.')[-1]):
+            for k, text in enumerate(ccon.before_call_[qn.split('.')[-1]]):
+                env0 = {}
+                for lname, _t in ccon.lets:
+                    if lname in st.frame.vars:
+                        env0[lname] = st.frame.vars[lname]
+                goal = self.spec_bool(text, st, env0)
+                self.oblige(st, goal, "%s:before[%s][%d]" % (caller, qn.split('.')[-1], k), text)
+                st.assume(goal)
         # evaluate the contract in a frame that sees only the callee's parameters
         cst = st
         cst.stack.append(Frame(dict(vals), None, func.__globals__, qn + ':contract'))
@@ -776,10 +787,14 @@ class Verifier(Stmts):
     def _trivial_size(h):
         return False
 
-    def _try(self, hyps, goal, timeout_ms, seed=None):
+    def _try(self, hyps, goal, timeout_ms, seed=None, rlimit=None):
         s = self._solver(timeout_ms)
         if seed is not None:
             s.set('random_seed', seed)
+        if rlimit is not None:
+            # a deterministic budget (z3 resource units, ~0.5M per second here): the verdict of this attempt does not
+            # depend on how busy the machine is; the wall-clock timeout is only a backstop
+            s.set('rlimit', rlimit)
         for h in hyps:
             s.add(h)
         s.add(z3.Not(goal))
@@ -847,13 +862,72 @@ class Verifier(Stmts):
                 from .inst import _constants
                 gconst = _constants([ob.goal])
                 by_const = [h for h in ob.hyps if (_constants([h]) & gconst) and not self._trivial_size(h)]
-                levels = self.relevance_levels(ob)[:2]
+                # smallest first: the quantified facts that mention a constant of the goal, alone; then with the cheap
+                # ground facts (no sequence constructions) that mention one; then the broader relevance levels
+                q_only = [h for h in by_const if _contains_quantifier(h)]
+                cheap = [h for h in by_const if not _contains_quantifier(h) and not self.hard_for_pruning(h)]
+                levels = []
+                # Selection by distance.  Quantified path facts (invariants, pre-conditions, callee post-conditions) are
+                # always kept - focused instantiation only instantiates them on the goal's terms; ground path facts are
+                # added by distance from the goal over shared RARE constants (a constant occurring in a large part of the
+                # hypotheses - a parameter of the function - does not discriminate); of the definitional axioms (ghost
+                # functions, lifted sums) only those sharing an uninterpreted function with the goal.
+                ax_ids = {a_.get_id() for a_ in list(self.axioms) + list(self.func_axioms)}
+                gsyms = self.uf_symbols(ob.goal)
+                hc = [(h, _constants([h])) for h in ob.hyps]
+                freq = {}
+                for _h, cs_ in hc:
+                    for c_ in cs_:
+                        freq[c_] = freq.get(c_, 0) + 1
+                cut = max(8, int(0.35 * len(ob.hyps)))
+                pcq = [h for h in ob.hyps if h.get_id() not in ax_ids and _contains_quantifier(h)]
+                pcg = [(h, cs_) for h, cs_ in hc if h.get_id() not in ax_ids and not _contains_quantifier(h)]
+                ax_rel = [h for h in ob.hyps if h.get_id() in ax_ids and (self.uf_symbols(h) & gsyms)]
+                reach = {c_ for c_ in gconst if freq.get(c_, 0) <= cut}
+                for h in pcq:       # constants of quantified facts that mention a goal constant are one hop away too
+                    cs_ = _constants([h])
+                    if cs_ & gconst:
+                        reach |= {c_ for c_ in cs_ if freq.get(c_, 0) <= cut}
+                rare_goal = {c_ for c_ in gconst if freq.get(c_, 0) <= cut} or set(gconst)
+                qg = [h for h in pcq if _constants([h]) & rare_goal]      # quantified facts about the goal's own objects
+                prev_n = -1
+                for _hop in range(3):
+                    sel = [h for h, cs_ in pcg if cs_ & reach]
+                    if len(sel) != prev_n:
+                        if qg and len(qg) < len(pcq):
+                            levels.append(qg + sel + ax_rel)
+                        levels.append(pcq + sel + ax_rel)
+                        prev_n = len(sel)
+                    for h, cs_ in pcg:
+                        if cs_ & reach:
+                            reach = reach | {c_ for c_ in cs_ if freq.get(c_, 0) <= cut}
+                levels.append(pcq + [h for h, _c in pcg] + ax_rel)
+                if q_only:
+                    levels.append(q_only)
+                    if cheap:
+                        levels.append(q_only + cheap)
+                levels += self.relevance_levels(ob)[:2]
                 if by_const and len(by_const) < len(ob.hyps):
                     levels.append(by_const)
+                # each selection also without its sequence-constructing ground facts (z3's sequence solver answers
+                # `unknown` on some irrelevant ones) - dropping hypotheses is always sound
+                variants = []
+                seen_keys = set()
+                for lv in levels:
+                    qs = [h for h in lv if _contains_quantifier(h)]
+                    ch = [h for h in lv if not _contains_quantifier(h) and not self.hard_for_pruning(h)]
+                    for cand in (lv, (qs + ch) if qs else None):
+                        if not cand:
+                            continue
+                        key = tuple(sorted(h.get_id() for h in cand))
+                        if key not in seen_keys:
+                            seen_keys.add(key)
+                            variants.append(cand)
+                levels = variants[:18]
                 for k, lv in enumerate(levels):
                     fh, fcore, fn_, _fl = instantiate(lv, ob.goal, rounds=2, focused=True, extra_terms=ob.terms,
                                                       max_instances=600)
-                    rf, _sf = self._try(fh, fcore, min(3000, self.timeout_ms))
+                    rf, _sf = self._try(fh, fcore, 180000, rlimit=(6000000 if k < 4 else 2000000))
                     if rf == z3.unsat:
                         ob.status, ob.backend = 'discharged', 'z3/relevant%d+focused(%d)' % (k, fn_)
                         break
